@@ -579,7 +579,34 @@ def alpha_equiv(a, b):
             return go(s[3], t[3], ea + [s[1]], eb + [t[1]])
         return all(go(x, y, ea, eb) for x, y in zip(s[1:], t[1:]))
     if not go(a, b, [], []): return False
+    alpha_equiv.last_pairs = sorted((fa[k], k, next(y for y in fb if fb[y] == fa[k])) for k in fa)
     return z3.And(conds) if conds else True
+
+def var_occurrences(t):
+    """variable names at the {..} occurrences of the printed formula, in textual order, with their role"""
+    op = t[0]
+    if op == 'var': return [('occ', t[1])]
+    if op in ('prop', 'wild', 'true', 'false'): return []
+    if op == 'jump': return [('jump', t[1])] + var_occurrences(t[2])
+    if op in S.QUANT: return [('bind', t[1])] + var_occurrences(t[3])
+    out = []
+    for c in t[1:]: out += var_occurrences(c)
+    return out
+
+def binder_of_occurrences(t):
+    """for every {..} occurrence in textual order: an identifier of what it refers to (binder index or ('free', name))"""
+    out = []; cnt = [0]
+    def go(t, env):
+        op = t[0]
+        if op == 'var': out.append(env.get(t[1], ('free', t[1])))
+        elif op in ('prop', 'wild', 'true', 'false'): pass
+        elif op == 'jump': out.append(env.get(t[1], ('free', t[1]))); go(t[2], env)
+        elif op in S.QUANT:
+            b = ('b', cnt[0]); cnt[0] += 1; out.append(b); go(t[3], {**env, t[1]: b})
+        else:
+            for c in t[1:]: go(c, env)
+    go(t, {})
+    return out
 
 def all_subtrees(t):
     out = [t]
@@ -589,6 +616,47 @@ def all_subtrees(t):
     elif op not in ('var', 'prop', 'wild', 'true', 'false'):
         for c in t[1:]: out += all_subtrees(c)
     return out
+
+def split_braces(chars):
+    """(skeleton with every {name} replaced by {}, list of names) -- names must be concrete"""
+    skel, names, i = [], [], 0
+    while i < len(chars):
+        c = chars[i]
+        if c == 123:
+            j = i + 1
+            while chars[j] != 125: j += 1
+            names.append(tuple(chars[i + 1:j])); skel += [123, 125]; i = j + 1
+        else: skel.append(c); i += 1
+    return skel, names
+
+def canon_consistent(I, ctx, ast, text, c_str, ren):
+    """naming-scheme independent obligations on one canonical form: same text outside the braces; occurrences that refer to
+    the same binder / free variable get the same canonical name and different ones different names; the renaming maps every
+    free variable to the name used at its occurrences, injectively"""
+    sk0, n0 = split_braces(list(text)); sk1, n1 = split_braces(list(c_str.chars))
+    okv, m = ctx.valid(_b(I.equal(RString(sk0), RString(sk1))))
+    if not okv: return 'canonisation changes the text outside the variable names', m
+    if len(n0) != len(n1): return 'canonisation changes the number of variable occurrences', None
+    it = iter(n1)
+    def ren_ast(t):
+        op = t[0]
+        if op == 'var': return ('var', next(it))
+        if op in ('prop', 'wild', 'true', 'false'): return t
+        if op == 'jump':
+            nm = next(it); return ('jump', nm, ren_ast(t[2]))
+        if op in S.QUANT:
+            nm = next(it); return (op, nm, t[2], ren_ast(t[3]))
+        return (op,) + tuple(ren_ast(c) for c in t[1:])
+    cast = ren_ast(ast)
+    # the canonical form must be an alpha-variant of the sub-formula (no capture, no merged or split variables)
+    ae = alpha_equiv(ast, cast)
+    if ae is False or (ae is not True and not ctx.valid(ae)[0]): return 'the canonical form is not a consistent renaming of the sub-formula (variables merged, split or captured)', None
+    fmap = {a_: b_ for _, a_, b_ in alpha_equiv.last_pairs}
+    fv = free_vars_ast(ast)
+    for v_ in fv:
+        if ren.get(v_) != fmap.get(v_): return f'renaming of free variable {show(v_)} is {show(ren.get(v_, ()))}, but its occurrences are named {show(fmap.get(v_, ()))}', None
+    if len({ren[v_] for v_ in fv}) != len(fv): return 'renaming is not injective on the free variables', None
+    return None, None
 
 def sc_c09_canon(ctx, p):
     I = interp(); I.ctx = ctx; I.steps = 0
@@ -611,15 +679,8 @@ def sc_c09_canon(ctx, p):
         text = R.render(s_)
         r = I.run(I.fn('get_canonical_and_renaming'), [RString(text)])
         c_str, ren = r.fields[0], r.fields[1]
-        exp, emap = oracle_canon(s_)
-        okv, m = ctx.valid(_b(I.equal(c_str, RString(R.render(exp)))))
-        if not okv: return fail('canonical form differs from first-introduction-order naming', m, s_)
-        # renaming: every free variable maps to the canonical name of its occurrences, injectively
-        fv = free_vars_ast(s_)
-        got = {tuple(k.chars): tuple(v.chars) for k, v in ren.items}
-        for v_ in fv:
-            if got.get(v_) != emap[v_]: return fail(f'renaming of free variable {show(v_)} is {show(got.get(v_, ()))}, occurrences are named {show(emap[v_])}', None, s_)
-        if len({got[v_] for v_ in fv}) != len(fv): return fail('renaming is not injective on the free variables', None, s_)
+        why, m = canon_consistent(I, ctx, s_, text, c_str, {tuple(k.chars): tuple(v.chars) for k, v in ren.items})
+        if why: return fail(why, m, s_)
         # idempotence
         r2 = I.run(I.fn('get_canonical'), [RString(c_str.chars)])
         okv, m = ctx.valid(_b(I.equal(r2, c_str)))
@@ -656,11 +717,23 @@ def dup_key(ast, doms):
     return (show(R.render(exp)), tuple(sorted((show(emap[v_]), None if doms.get(v_) is None else show(doms[v_])) for v_ in fv)))
 
 def check_dups(dups, trees):
-    """every reported duplicate with counter m occurs at least m+1 times (up to renaming, identical domains of free vars)"""
-    occ = [dup_key(a, d) for a, d in occurrences(trees)]
+    """every reported duplicate with counter m occurs at least m+1 times (up to renaming, identical domains of free vars).
+    The reported canonical text is parsed with the reference parser and matched by alpha-equivalence (no naming scheme assumed)."""
+    occ = occurrences(trees)
+    I = interp()
     for (f, dm, m) in dups:
-        key = (f, tuple(sorted(dm)))
-        cnt = sum(1 for k in occ if k == key)
+        try: fast = R.parse(I, [ord(c) for c in f], True)
+        except R.Reject: return f'reported duplicate {f!r} is not a formula'
+        dmap = {tuple(map(ord, k)): v for k, v in dm}
+        cnt = 0
+        for a, doms in occ:
+            if alpha_equiv(fast, a) is not True: continue
+            pairs = alpha_equiv.last_pairs           # (index, name in f, name in a)
+            ok = len(pairs) == len(dmap)
+            for _, nf, na in pairs:
+                d_occ = doms.get(na); d_occ = None if d_occ is None else show(d_occ)
+                if nf not in dmap or dmap[nf] != d_occ: ok = False
+            cnt += ok
         if cnt < m + 1: return f'duplicate {f!r} with domains {dict(dm)} and counter {m} occurs only {cnt} times (up to renaming, with identical domains of its free variables)'
     return None
 
